@@ -263,6 +263,8 @@ class CHECK(core.Check):
             return -rng.getrandbits(w + 3) - 1          # negative
         if m == 4 and w == 1:
             return rng.choice([True, False, 2, 3, -1, 256])
+        if m == 4 and rng.random() < 0.5:
+            return rng.random() < 0.5                   # bool is an int: allowed for a field of any width
         return rng.getrandbits(w) if w else 0
 
     def _gen_pack(self, rng):
@@ -297,6 +299,8 @@ class CHECK(core.Check):
             n = rng.getrandbits(bits) if bits else 0
             if rng.random() < 0.3:
                 n = -n
+            if rng.random() < 0.05:
+                n = rng.random() < 0.5                  # bool argument
             return {"kind": "bytes", "n": n, "size": rng.choice([0, 1, 2, 3, 4, 8, (bits + 7) // 8, 13])}
         if k == 1:
             ln = rng.choice([0, 1, 2, 3, 8, 9, 16])
@@ -326,6 +330,8 @@ class CHECK(core.Check):
             n = rng.choice([1, 2, 7, 8, 9, 16, 32, 64, rng.randrange(-1, 70)])
             m = rng.randrange(5)
             x = rng.getrandbits(max(n, 0)) if m < 3 else (rng.getrandbits(max(n, 0) + 5) if m == 3 else -rng.getrandbits(8))
+            if rng.random() < 0.05:
+                x = rng.random() < 0.5
             return {"kind": "sign", "x": x, "n": n}
         # packByte / unpackByte
         fmt = []
@@ -674,7 +680,7 @@ class CHECK(core.Check):
                     i += 2
                     if b.startswith("ERR"):
                         return "bytify raised " + b
-                    want = n if (n >= 0 and not strict) else n % (256 ** size)
+                    want = int(n) if (n >= 0 and not strict) else int(n) % (256 ** size)
                     if u != str(want):
                         return "unbytify(bytify(%d, %d, reverse=%s, strict=%s)) = %s, expected %d" % (n, size, rev, strict, u, want)
                     bb = unhx(b)
@@ -732,7 +738,7 @@ class CHECK(core.Check):
         if k == "sign":
             x, n = c["x"], c["n"]
             if n >= 1 and 0 <= x < (1 << n):
-                want = x if x < (1 << (n - 1)) else x - (1 << n)
+                want = int(x) if x < (1 << (n - 1)) else int(x) - (1 << n)
                 if out != [str(want)]:
                     return "signExtend(%d, %d) = %s, two's complement value is %d" % (x, n, out, want)
             return None
